@@ -30,7 +30,12 @@ func main() {
 	flag.Parse()
 	importsOnly = *io
 	if *ownT != "" && !importsOnly {
-		ownFields = structFields(flag.Args(), *ownT)
+		ownFields = map[string]bool{}
+		for _, tn := range strings.Split(*ownT, ",") {
+			for f := range structFields(flag.Args(), tn) {
+				ownFields[f] = true
+			}
+		}
 		if len(ownFields) == 0 {
 			fmt.Fprintln(os.Stderr, "instr: struct type", *ownT, "not found")
 			os.Exit(2)
